@@ -18,6 +18,50 @@ extern "C" {
     fn tinfl_decompress_mem_to_heap(src: *const c_void, src_len: usize, out_len: *mut usize, flags: c_int) -> *mut c_void;
     fn tdefl_compress_mem_to_mem(out: *mut c_void, out_len: usize, src: *const c_void, src_len: usize, flags: c_int) -> usize;
     fn tdefl_compress_mem_to_heap(src: *const c_void, src_len: usize, out_len: *mut usize, flags: c_int) -> *mut c_void;
+    fn tinfl_decompressor_alloc() -> *mut c_void;
+    fn tinfl_decompressor_free(c: *mut c_void);
+    fn tinfl_decompress(r: *mut c_void, in_buf: *const u8, in_buf_size: *mut usize, out_buf_start: *mut u8, out_buf_next: *mut u8,
+                        out_buf_size: *mut usize, flags: u32) -> i32;
+}
+
+/// tinfl_decompress with out_buf_start / out_buf_next arithmetic, chunked input and output budgets,
+/// mirrored call by call on a Rust decoder.
+unsafe fn tinfl_stream(tr: &mut Tr, z: &[u8], plen: usize, zlib: bool, r: &mut StdRng) {
+    use miniz_oxide::inflate::core::{decompress, DecompressorOxide};
+    let d = tinfl_decompressor_alloc();
+    if d.is_null() {
+        return;
+    }
+    let mut twin = DecompressorOxide::new();
+    let cap = plen + 3;
+    let gout = Guarded::new(cap, true);
+    let mut tout = vec![0xEEu8; cap];
+    let (mut ip, mut op) = (0usize, 0usize);
+    for _ in 0..2000 {
+        let rem = z.len() - ip;
+        let ch = match r.gen_range(0..4) { 0 => 1.min(rem), 1 => r.gen_range(0..40).min(rem), _ => rem };
+        let more = ip + ch < z.len();
+        let budget = match r.gen_range(0..4) { 0 => 1, 1 => r.gen_range(0..300), _ => cap }.min(cap - op);
+        let flags = (if zlib { 1 } else { 0 }) | 4 | if more { 2 } else { 0 };
+        let gin = Guarded::from(&z[ip..ip + ch], r.gen());
+        let mut in_sz = ch;
+        let mut out_sz = budget;
+        let st = tinfl_decompress(d, gin.ptr, &mut in_sz, gout.ptr, gout.ptr.add(op), &mut out_sz, flags);
+        let (ts, tc, tw) = decompress(&mut twin, &z[ip..ip + ch], &mut tout[..op + budget], op, flags);
+        let okc = in_sz <= ch && out_sz <= budget;
+        tr.ev(json!({"ev": "c_tinfl", "in_len": ch, "budget": budget, "flags": flags, "status": st, "consumed": in_sz, "written": out_sz,
+            "twin": {"status": ts as i32, "consumed": tc, "written": tw},
+            "data": bytes(if okc { &gout.slice()[op..op + out_sz] } else { &[] }), "twin_data": bytes(&tout[op..op + tw.min(budget)])}));
+        if !okc {
+            break;
+        }
+        ip += in_sz;
+        op += out_sz;
+        if st <= 0 || (st == 2 && op == cap) {
+            break;
+        }
+    }
+    tinfl_decompressor_free(d);
 }
 
 const PAGE: usize = 4096;
@@ -298,6 +342,9 @@ fn oneshots(o: &Opts, tr: &mut Tr, prop: &str, r: &mut StdRng) {
                         let urc = mz_uncompress(gd.ptr, &mut ul as *mut u64 as *mut _, gz.ptr, n_out as _);
                         let k = if urc == 0 { (ul as usize).min(ucap) } else { 0 };
                         tr.ev(json!({"ev": "c_uncompress", "cap": ucap, "ret": urc, "dest_len": ul, "data": bytes(&gd.slice()[..k])}));
+                    }
+                    if dest_cap == bound {
+                        tinfl_stream(tr, &gout.slice()[..n_out], size, true, r);
                     }
                     // tinfl one-shot helpers
                     let gd = Guarded::new(size, true);
